@@ -215,7 +215,7 @@ def prove_item(kind, name, tier, seed, known=()):
     order = ("z3-new", "z3", "cvc5")
     from .symex import Obligation
     canaries = [Obligation(f"{name}:canary:precondition satisfiable", "canary", pre.pc, FALSE, name)]
-    for s1 in canary_paths[: (1 if tier == "quick" else 4)]:
+    for s1 in canary_paths[: (3 if tier == "quick" else 6)]:
         canaries.append(Obligation(f"{name}:canary:return path reachable", "canary", s1.pc, FALSE, name))
 
     def work(ob):
@@ -253,17 +253,24 @@ def prove_item(kind, name, tier, seed, known=()):
         else:
             ob.refuted = r["result"] == "sat"
             res.failed.append(ob)
+    # vacuity: the precondition must be satisfiable and at least one normal exit must be reachable
+    # (individual dead paths are legitimate, e.g. `if norm_identifier is None` in parse_curie)
     vac = 0
+    path_canaries = [(ob, r) for ob, r in allres if ob.kind == "canary" and "return path" in ob.label]
     for ob, r in allres:
-        if ob.kind == "canary" and r["result"] == "unsat":
+        if ob.kind != "canary":
+            continue
+        if r["result"] == "unsat":
             vac += 1
-            res.failed.append(ob)
-            ob.status = "vacuous"
-            ob.solver_output = r["tried"]
+            if "precondition" in ob.label or all(r2["result"] == "unsat" for _, r2 in path_canaries):
+                if ob not in res.failed:
+                    res.failed.append(ob)
+                    ob.status = "vacuous"
+                    ob.solver_output = r["tried"]
     res.info.update({
         "paths": n_paths,
         "canaries": len(canaries),
-        "canaries_vacuous": vac,
+        "canaries_dead_paths": vac,
         "inlined_getters": sorted(ctx.inlined),
         "dropped": sorted(ctx.dropped),
         "undischarged": [{"label": ob.label, "status": ob.status} for ob in res.failed],
